@@ -327,7 +327,29 @@ func c12Prop(rec *ev.Recorder) func(t *rapid.T) {
 			return
 		}
 		c := c12Case{Pre: pre}
-		switch rapid.IntRange(0, 9).Draw(t, "skind") {
+		switch rapid.IntRange(0, 10).Draw(t, "skind") {
+		case 10:
+			// negations of comparisons, over numbers that include NaN and infinities
+			num := func() string {
+				return rapid.SampledFrom([]string{"0", "1", "2", "(0 - 1)", "0.5", "1.0", "(0.0 / 0.0)", "(1.0 / 0.0)", "(0.0 - 1.0 / 0.0)", "zznan", "zzinf", "zzone"}).Draw(t, "num")
+			}
+			cmp := func() string {
+				return num() + " " + rapid.SampledFrom([]string{"<", "<=", ">", ">=", "==", "!="}).Draw(t, "cmp") + " " + num()
+			}
+			c.Pre = append(c.Pre, "zznan = 0.0 / 0.0", "zzinf = 1.0 / 0.0", "zzone = 1")
+			c.Typ = "bool"
+			switch rapid.IntRange(0, 4).Draw(t, "negform") {
+			case 0:
+				c.S = "!(" + cmp() + ")"
+			case 1:
+				c.S = "!(!(" + cmp() + "))"
+			case 2:
+				c.S = "!(" + cmp() + ") & " + "(" + cmp() + ")"
+			case 3:
+				c.S = "(" + cmp() + ") | !(" + cmp() + ")"
+			default:
+				c.S = "!(" + cmp() + ") == (" + cmp() + ")"
+			}
 		case 0:
 			c.S, c.Typ = rapid.SampledFrom(c12Failing).Draw(t, "failing"), "any"
 		case 1:
